@@ -317,14 +317,20 @@ def rule_R13_desugar(text):
             if z and len(names) == 1 and z.group(1) in R13_SLICE_VARS:
                 hit = (mt.start(), bo, z.group(1), None, names[0], 'shared')
                 break
+            # `for e in X` consuming a Vec of Copy elements (declared `//@ desugar *X`): `let e = X[k];`
+            z = re.fullmatch(r'([\w.]+)', hdr)
+            if z and len(names) == 1 and ('*' + z.group(1)) in R13_SLICE_VARS:
+                hit = (mt.start(), bo, z.group(1), None, names[0], 'copy')
+                break
         if not hit:
             break
         shared = len(hit) > 5
+        bycopy = len(hit) > 5 and hit[5] == 'copy'
         a, bo, x, iv, ev = hit[:5]
         bc = rsscan.match_close(m, bo)
         k = 'verif_k%d' % n
         head = 'let mut %s: usize = 0; while %s < %s.len() /*@R13 %s.len() - %s @*/ ' % (k, k, x, x, k)
-        first = '{ ' + (('let %s = %s; ' % (iv, k)) if iv else '') + ('let %s = &%s[%s]; ' if shared else 'let %s = &mut %s[%s]; ') % (ev, x, k)
+        first = '{ ' + (('let %s = %s; ' % (iv, k)) if iv else '') + ('let %s = %s[%s]; ' if bycopy else ('let %s = &%s[%s]; ' if shared else 'let %s = &mut %s[%s]; ')) % (ev, x, k)
         body = text[bo + 1:bc]
         old = text[a:bc + 1]
         new = head + '\n' * text[a:bo].count('\n') + first + body + ' %s += 1; }' % k
